@@ -164,10 +164,10 @@ impl Prop for C07 {
             if mode < 2 {
                 // ---- asm bodies
                 let body = *rng.pick(ASM_BODIES);
-                let pre = *rng.pick(&["procedure P;\nbegin\n  X:=1;\n  asm", "procedure P; assembler;\nasm", "begin\n  if A then\n  asm", "procedure P;\nbegin\n  X:=1; {pasfmt off}\n  asm"]);
+                let pre = *rng.pick(&["procedure P;\nbegin\n  X:=1;\n  asm", "procedure P; assembler;\nasm", "begin\n  if A then\n  asm", "procedure P;\nbegin\n  X:=1; {pasfmt off}\n  asm", "procedure P;\n{$IFDEF PUREPASCAL}\nbegin\n{$ELSE}\nasm\n{$ENDIF}"]);
                 let gap = *rng.pick(&["\n    ", " ", "\n\n  \t", "   "]);
                 let gap2 = *rng.pick(&["\n  ", " ", "\n\n\n"]);
-                let post = if pre.starts_with("procedure P; assembler") { "end;\n" } else if pre.starts_with("begin\n  if") { "end;\nend;\n" } else { "end;\n  Y   :=  2;\nend;\n" };
+                let post = if pre.starts_with("procedure P; assembler") || pre.contains("PUREPASCAL") { "end;\n" } else if pre.starts_with("begin\n  if") { "end;\nend;\n" } else { "end;\n  Y   :=  2;\nend;\n" };
                 let mut input = format!("{pre}{gap}{body}{gap2}{post}");
                 let body_cr: String;
                 let gap_cr: String;
